@@ -662,10 +662,37 @@ class DrainBuilder:
             self.add("release")
             self.held = False
 
+    def park_window(self):
+        """T3: the HEADERS of the next stream is read and the reader goroutine is parked inside operateHeaders, after
+        `t.maxStreamID = streamID` and before the `t.state` check, while other goroutines (loopy's GOAWAY handlers, the
+        5 s fallback timer, handlers finishing, Close) run.  No client frame can be processed inside the window."""
+        rng = self.rng
+        if self.held:
+            return
+        sid = self.next
+        self.add("hdrpark %d" % sid)
+        self.ids.append(sid)
+        self.next = sid + 2
+        for _ in range(rng.randrange(1, 5)):
+            r = rng.random()
+            if r < 0.3:
+                self.add("drain")
+            elif r < 0.65:
+                self.add("sleep %d" % rng.choice([10, 1000, 5000, 5000]))
+            elif r < 0.9 and self.ids[:-1]:
+                self.add("finish %d %d" % (rng.choice(self.ids[:-1]), rng.choice([0, 5])))
+            elif r < 0.94:
+                self.add("close")
+            else:
+                self.add("sleep 10")
+        self.add("unpark")
+
     def random_op(self):
         rng = self.rng
         r = rng.random()
-        if r < 0.28:
+        if r < 0.05:
+            self.park_window()
+        elif r < 0.28:
             self.hdr(self.next + rng.choice([0, 0, 0, 2]))
         elif r < 0.31:
             self.hdr(rng.choice([0, 2, self.next - 2 if self.next > 2 else 1, self.next + 1]))     # illegal id
@@ -730,6 +757,41 @@ def drain_cases(rng, n_random):
             b.add("finish %d 0" % b.ids[-1])
             b.add("end")
             cases.append((b.ops, "drain-stalled-%s-%d" % (first, k)))
+    # a new stream racing with the GOAWAYs: its HEADERS is inside operateHeaders (id recorded, admission not yet decided)
+    # while the heads-up / final GOAWAY handlers, the fallback timer, other handlers or Close run
+    for k in (0, 1, 2):
+        for when in ("drain-park-timer", "park-drain-timer", "park-only", "drain-park-close", "drain-park-finish-timer", "park-drain-unpark-ack"):
+            b = DrainBuilder(rng)
+            for _ in range(k):
+                b.hdr()
+            sid = b.next
+            steps = {
+                "drain-park-timer": ["drain", "P", "sleep 5000"],
+                "park-drain-timer": ["P", "drain", "sleep 1000", "sleep 5000"],
+                "park-only": ["P", "sleep 1000"],
+                "drain-park-close": ["drain", "P", "close", "sleep 10"],
+                "drain-park-finish-timer": ["drain", "P"] + ["finish %d 0" % i for i in b.ids] + ["sleep 5000"],
+                "park-drain-unpark-ack": ["P", "drain", "sleep 10"],
+            }[when]
+            for st in steps:
+                if st == "P":
+                    b.add("hdrpark %d" % sid)
+                    b.ids.append(sid)
+                    b.next = sid + 2
+                else:
+                    b.add(st)
+            b.add("unpark")
+            if when == "park-drain-unpark-ack":
+                b.add("pingack " + GOAWAY_PING)
+            b.add("sleep 10")
+            b.hdr()
+            ids = list(b.ids)
+            rng.shuffle(ids)
+            for i in ids:
+                b.add("finish %d 0" % i)
+            b.add("sleep 6000")
+            b.add("end")
+            cases.append((b.ops, "drain-park-%d-%s" % (k, when)))
     for i in range(n_random):
         b = DrainBuilder(rng)
         for _ in range(rng.randrange(0, 4)):
@@ -739,4 +801,91 @@ def drain_cases(rng, n_random):
         b.release()
         b.add("end")
         cases.append((b.ops, "drain-rand-%d" % i))
+    return cases
+
+
+# ---- header VALUE grammars: every header the client parses gets values from a small grammar incl. every truncation ------
+
+def _short_strings(alphabet, maxlen):
+    out = [""]
+    frontier = [""]
+    for _ in range(maxlen):
+        frontier = [s + a for s in frontier for a in alphabet]
+        out += frontier
+    return out
+
+
+PERCENT_ALPHA = ["%", "4", "1", "g", "E"]          # '%', hex digits (both cases), a non-hex byte
+
+
+def percent_values(rng, n_random):
+    """grpc-message values: all strings of length <= 4 over {%,4,1,g,E}, plus longer random ones made of escapes
+    (valid, invalid-hex, truncated to one or zero digits) and plain bytes, incl. every proper prefix of each."""
+    vals = _short_strings(PERCENT_ALPHA, 4)
+    toks = ["%41", "%e4", "%E4", "%20", "%zz", "%4g", "%g4", "%", "%4", "%%", "a", " ", "\xc3\xa9".encode("latin1").decode("latin1"), "~", "+"]
+    for _ in range(n_random):
+        v = "".join(rng.choice(toks) for _ in range(rng.randrange(1, 7)))
+        vals.append(v)
+        k = rng.randrange(0, len(v) + 1)
+        vals.append(v[:k])
+    return vals
+
+
+def b64_values(rng, n_random):
+    vals = _short_strings(["Y", "Q", "=", "!"], 4)
+    for _ in range(n_random):
+        n = rng.randrange(0, 10)
+        v = "".join(rng.choice("YWJjZA09+/") for _ in range(n)) + rng.choice(["", "=", "==", "===", "=a"])
+        vals.append(v)
+    return vals
+
+
+def int_values(rng, n_random):
+    vals = ["", "0", "-0", "+0", "00", "1", "16", "17", "2147483647", "2147483648", "-2147483648", "-2147483649", "4294967295",
+            "9223372036854775807", "9223372036854775808", "-9223372036854775808", "-9223372036854775809", "1e3", "0x10", "1_0",
+            " 1", "1 ", "+", "-", "++1", "100", "199", "200", "404", "99", "٣"]
+    for _ in range(n_random):
+        vals.append(rng.choice(["", "+", "-"]) + "".join(rng.choice("0123456789") for _ in range(rng.randrange(0, 21))) + rng.choice(["", "", "x", " "]))
+    return vals
+
+
+def ctype_values(rng):
+    base = "application/grpc"
+    vals = [base[:k] for k in range(len(base) + 1)] + [base + x for x in ["+", ";", "+proto", ";x=y", "x", "/", " ", "+" * 3]]
+    vals += [base.upper(), "Application/grpc", "text/plain", ""]
+    return vals
+
+
+def header_value_cases(rng, n_random, per_case=10):
+    """One RPC per value: the server answers stream k with a response whose parsed header carries the value.  Covers the
+    value GRAMMAR of every header operateHeaders interprets (grpc-message percent escapes, grpc-status / :status integers,
+    -bin base64, content-type), exhaustively for short values and with random longer ones, each with its truncations."""
+    items = []      # (label, list of frames as functions of the stream id)
+    for v in percent_values(rng, n_random):
+        where = rng.choice(["trl", "trlonly"])
+        if where == "trl":
+            items.append(("msg", lambda i, v=v: [headers(i, GRPC_HDR), headers(i, [("grpc-status", "3"), ("grpc-message", v.encode("latin1"))], es=True)]))
+        else:
+            items.append(("msg", lambda i, v=v: [headers(i, GRPC_HDR + [("grpc-status", "3"), ("grpc-message", v.encode("latin1"))], es=True)]))
+    for v in b64_values(rng, n_random // 2):
+        items.append(("bin", lambda i, v=v: [headers(i, GRPC_HDR + [("x-v-bin", v)], es=rng.random() < 0.5)]))
+        items.append(("bin", lambda i, v=v: [headers(i, GRPC_HDR), headers(i, [("grpc-status", "0"), ("x-t-bin", v)], es=True)]))
+    for v in int_values(rng, n_random // 2):
+        v8 = v.encode("utf-8")
+        items.append(("gs", lambda i, v8=v8: [headers(i, GRPC_HDR), headers(i, [("grpc-status", v8)], es=True)]))
+        items.append(("hs", lambda i, v8=v8: [headers(i, [(":status", v8)], es=rng.random() < 0.5)]))
+    for v in ctype_values(rng):
+        items.append(("ct", lambda i, v=v: [headers(i, [(":status", "200"), ("content-type", v)], es=rng.random() < 0.3)]))
+    rng.shuffle(items)
+    cases = []
+    for c in range(0, len(items), per_case):
+        chunk = items[c:c + per_case]
+        b = Builder(rng)
+        for _ in chunk:
+            b.new(mode=rng.choice("rw"), deadline=0)
+        for k, (_, fn) in enumerate(chunk):
+            for op in fn(2 * k + 1):
+                b.add(op)
+        b.add(ping())
+        cases.append((b.ops + ["end"], "values-%d" % (c // per_case)))
     return cases
